@@ -944,7 +944,19 @@ def single_assign_aliases(fn) -> dict:
                         if isinstance(n, ast.Name):
                             counts[n.id] = counts.get(n.id, 0) + 2
     params = set(func_params(fn)) if isinstance(fn, (ast.FunctionDef, ast.AsyncFunctionDef)) else set()
-    return {k: v for k, v in vals.items() if counts.get(k) == 1 and k not in params}
+    # a local that is filled in place (x[k] = v, x.attr = v) names an object under construction, not an expression
+    mutated = set()
+    for st in walk_no_nested(fn):
+        tg = st.targets if isinstance(st, ast.Assign) else ([st.target] if isinstance(st, (ast.AugAssign, ast.AnnAssign)) else [])
+        for t in tg:
+            for sub in ast.walk(t):
+                if isinstance(sub, (ast.Subscript, ast.Attribute)) and isinstance(sub.ctx, ast.Store):
+                    root = sub
+                    while isinstance(root, (ast.Subscript, ast.Attribute)):
+                        root = root.value
+                    if isinstance(root, ast.Name):
+                        mutated.add(root.id)
+    return {k: v for k, v in vals.items() if counts.get(k) == 1 and k not in params and k not in mutated}
 
 
 def copy_ast(node):
